@@ -230,6 +230,102 @@ pub fn run(ctx: &Ctx, replay: Option<&J>) -> CheckResult {
             }
         },
     );
+    // (A') special grid values: the images of the one-hot and low-mask bit patterns of every float-typed data field
+    // (taken from the field decoders through the hook, so they are exact grid points of *some* field), tried in every
+    // float leaf of the largest base message of every type whose observed range contains them
+    {
+        let mut specials: Vec<f64> = Vec::new();
+        // the grid values are computed here from each field's resolution (= the image of pattern 1 when pattern 0 maps to
+        // 0), with the field's own float type, not read back from the decoder: a decoder that mistreats one pattern must
+        // not be able to hide the corresponding value from this pass
+        for f in crate::fields::FIELDS.iter().filter(|f| f.is_float) {
+            let (z, one) = match ((f.dec)(0), (f.dec)(1)) {
+                (Ok((_, z)), Ok((false, Some(one)))) => (z.unwrap_or(0.0), one),
+                _ => continue,
+            };
+            if z != 0.0 || !(one > 0.0) {
+                continue;
+            }
+            for j in 0..f.width.min(40) {
+                for pat in [1u64 << j, (1u64 << j) - 1, (1u64 << j) + 1] {
+                    let v = if f.is_f32 { ((pat as f32) * (one as f32)) as f64 } else { (pat as f64) * one };
+                    if v.is_finite() && v != 0.0 {
+                        specials.push(v);
+                        specials.push(-v);
+                    }
+                }
+            }
+        }
+        specials.sort_by(|a, b| a.partial_cmp(b).unwrap());
+        specials.dedup();
+        let parts: Vec<(Evidence, Vec<Violation>)> = corp
+            .types
+            .par_iter()
+            .map(|tc| {
+                let mut ev = Evidence::new();
+                ev.sample_cap = 0;
+                let mut vs: Vec<Violation> = Vec::new();
+                let base = match tc.bases.iter().max_by_key(|b| format!("{:?}", b).len()) {
+                    Some(b) => b,
+                    None => return (ev, vs),
+                };
+                let mut all = Vec::new();
+                base.walk(&mut Vec::new(), &mut all);
+                // one representative leaf per schema key (first element of each list)
+                let mut seen_keys: Vec<String> = Vec::new();
+                for (path, node) in all.iter().filter(|(_, n)| n.is_float()) {
+                    let key = crate::value::schema_key(path);
+                    if seen_keys.contains(&key) {
+                        continue;
+                    }
+                    seen_keys.push(key.clone());
+                    let (lo, hi) = match tc.num_ranges.get(&key) {
+                        Some(r) => *r,
+                        None => continue,
+                    };
+                    let cands: Vec<f64> = specials.iter().copied().filter(|v| *v >= lo && *v <= hi).collect();
+                    let stride = (cands.len() / 1500).max(1);
+                    for v in cands.iter().step_by(stride) {
+                        let mut t = base.clone();
+                        match t.get_mut(path) {
+                            Some(Value::F32(x)) => *x = *v as f32,
+                            Some(Value::F64(x)) => *x = *v,
+                            _ => continue,
+                        }
+                        let m = match value_to_message(&t) {
+                            Ok(m) => m,
+                            Err(_) => continue,
+                        };
+                        ev.evaluations += 1;
+                        match oracle_a(&m, &t) {
+                            Ok(_) => {
+                                ev.nontrivial_hash(hash_u64s(&[tc.number as u64, hash_str(&key), v.to_bits()]));
+                                if ev.evaluations % 16 == 0 {
+                                    ev.class("A/special-grid-value-in-a-float-leaf");
+                                }
+                            }
+                            Err((sig, msg)) => {
+                                if ctx.is_known(&sig) {
+                                    ev.excluded_known += 1;
+                                } else if vs.is_empty() {
+                                    vs.push(Violation { property: "C01".into(), signature: sig, message: format!("{} = {:e}: {}", key, v, msg), case: json!({"kind":"message-value","number":tc.number,"value":t.to_json()}) });
+                                }
+                            }
+                        }
+                    }
+                }
+                (ev, vs)
+            })
+            .collect();
+        for (e, v) in parts {
+            ev.merge(e);
+            for x in v {
+                if !vs.iter().any(|y| y.signature == x.signature) {
+                    vs.push(x);
+                }
+            }
+        }
+    }
     // (B)
     let golden_all = crate::pool::golden_frames();
     let per_type = ctx.n(12_000, 300_000);
